@@ -7,7 +7,12 @@
 (* 32 bits for lattice wavelengths: the trace decides order, alignment, edge     *)
 (* bracketing and (flag readA, set by the harness from exact fractions) reading  *)
 (* A of widths and edges; both readings are decided exactly by binding A.        *)
-EXTENDS Observation, IOUtils, TLCExt
+(* 4-column events also carry a native model chosen by the harness (contiguous   *)
+(* cells with integer cm-1 edges e.nat, integer values e.nf, any order) binned    *)
+(* with the observation's binner: element i must be the overlap-weighted mean    *)
+(* ObsBin!ModelOnBin over exactly [wn_i - w_i/2, wn_i + w_i/2], whether the bins *)
+(* overlap, nest, leave gaps or have edges that do not ascend with the centres.  *)
+EXTENDS ObsBin, IOUtils, TLCExt
 VARIABLE l
 TraceLog == ndJsonDeserialize(IOEnv.TRACE_FILE)
 
@@ -16,6 +21,18 @@ SafeClose(m, S, r, tol) == Abs(m) < (Big \div r[2]) /\ Close(m, S, r, tol)
 AllClose(ms, S, rs, tol) == Len(ms) = Len(rs) /\ \A i \in 1..Len(ms) : SafeClose(ms[i], S, rs[i], tol)
 \* lo, hi scaled by Se, c by S (S a multiple of Se); one rounding unit of slack
 Brackets(e, lo, c, hi) == LET q == e.S \div e.Se IN lo * q <= c + q /\ c <= hi * q + q
+\* floor(r * S) for r >= 0 without forming r[1] * S (32-bit TLC integers; r[2] * S < 2^31 by construction)
+ScaledFloor(r, S) == (r[1] \div r[2]) * S + ((r[1] % r[2]) * S) \div r[2]
+NearScaled(m, S, r, tol) == m >= ScaledFloor(r, S) - tol /\ m <= ScaledFloor(r, S) + 1 + tol
+ModelOk(e) ==
+    LET n  == Len(e.rows)
+        wn == LWn(e.rows, e.D)
+        w  == LWnwA(e.rows, e.D, 4, "ok")
+    IN  /\ e.ncol = 4 /\ Len(e.mbin) = n /\ Len(e.nf) = Len(e.nat)
+        /\ \A k \in 1..Len(e.nf) : e.nf[k] >= 0
+        /\ Tiling(e.nat)
+        /\ \A i \in 1..n : /\ Within(e.nat, 1, wn[i], w[i])
+                           /\ NearScaled(e.mbin[i], e.Sm, ModelOnBin(e.nat, e.nf, 1, wn[i], w[i]), e.tol)
 Ok(e) ==
     LET n == Len(e.rows) IN
     /\ Loadable(e.rows, e.ncol)
@@ -35,6 +52,7 @@ Ok(e) ==
                           /\ AllClose(e.med, e.Se, LEdA(e.rows, e.D, 3, "ok"), e.tol)
     /\ e.bgrid = e.mwn /\ e.bwid = e.mwid                                    \* binner on exactly those centres and widths
     /\ e.chkalign => e.mb = [i \in 1..n |-> LVal(e.rows, "ok")[i] * e.S]     \* binned model aligned with the observed values
+    /\ e.chkmodel => ModelOk(e)                                             \* model over exactly each element's own bin
 Init == l = 1
 Step == /\ l <= Len(TraceLog)
         /\ LET e == TraceLog[l] IN
